@@ -4,6 +4,7 @@
 #include <gnu_gama/sparse/smatrix_graph.h>
 #include <gnu_gama/sparse/smatrix_ordering.h>
 #include <gnu_gama/adj/envelope.h>
+#include <gnu_gama/sparse/sbdiagonal.h>
 #include <map>
 #include <set>
 using namespace vh;
@@ -19,12 +20,51 @@ static std::vector<double> dense_of(const SparseMatrix<>* s) {
   return D;
 }
 
+// BD <dim> <band> <npacked> / packed B / packed U / END : a symmetric positive definite band block B = U'U given with its exact
+// Cholesky factor (spec/BlockDiag.tla). Checked alone, and as the second block behind the previous case's block.
+struct BdBlock { int dim = 0, band = 0; std::vector<double> B, U; };
+static BdBlock bd_prev;
+static void bd_compare(const BlockDiagonal<>& bd, int blk, const BdBlock& c, const std::string& what) {
+  const double* g = bd.begin(blk);
+  bool good = (bd.end(blk) - bd.begin(blk)) == (long)c.U.size() && bd.dim(blk) == c.dim && bd.width(blk) == c.band;
+  std::string msg;
+  for (size_t k = 0; good && k < c.U.size(); k++)
+    if (!(std::fabs(g[k] - c.U[k]) <= 1e-12)) { good = false; msg = what + ": packed element " + std::to_string(k) + " of the factor is " + std::to_string(g[k]) + ", the exact Cholesky factor has " + std::to_string(c.U[k]); }
+  ok("bd_choldec", good, msg.empty() ? what + ": shape of the factor differs" : msg);
+}
+static void bd_case(Tok& t) {
+  BdBlock c; c.dim = t.num(); c.band = t.num(); int np = t.num();
+  c.B.resize(np); c.U.resize(np);
+  for (auto& v : c.B) v = t.dbl();
+  for (auto& v : c.U) v = t.dbl();
+  t.expect("END");
+  ok("bd_packed_size", np == c.dim * (c.band + 1) - c.band * (c.band + 1) / 2, "packed size of the model differs from dim*(band+1) - band*(band+1)/2");
+  { BlockDiagonal<> bd(1, np); bd.add_block(c.dim, c.band, c.B.data());
+    ok("bd_build", bd.blocks() == 1 && bd.dim() == c.dim && bd.nonzeroes() == np && std::vector<double>(bd.begin(1), bd.end(1)) == c.B, "add_block does not preserve the entries");
+    BlockDiagonal<>* r = bd.replicate();
+    ok("bd_replicate", r->blocks() == 1 && r->dim(1) == c.dim && r->width(1) == c.band && std::vector<double>(r->begin(1), r->end(1)) == c.B, "replicate() does not preserve the entries");
+    int rc = r->cholDec();
+    ok("bd_choldec_rc", rc == 0, "cholDec() reports block " + std::to_string(rc) + " as not positive definite");
+    if (rc == 0) bd_compare(*r, 1, c, "single block");
+    ok("bd_source_untouched", std::vector<double>(bd.begin(1), bd.end(1)) == c.B, "cholDec() of the replica changed the source");
+    delete r; }
+  if (bd_prev.dim) {
+    BlockDiagonal<> bd(2, bd_prev.B.size() + np); bd.add_block(bd_prev.dim, bd_prev.band, bd_prev.B.data()); bd.add_block(c.dim, c.band, c.B.data());
+    ok("bd_build2", bd.blocks() == 2 && bd.dim() == bd_prev.dim + c.dim && bd.nonzeroes() == int(bd_prev.B.size()) + np, "two-block layout: dimensions differ");
+    int rc = bd.cholDec();
+    ok("bd_choldec_rc", rc == 0, "two blocks: cholDec() reports block " + std::to_string(rc) + " as not positive definite");
+    if (rc == 0) { bd_compare(bd, 1, bd_prev, "first of two blocks"); bd_compare(bd, 2, c, "second of two blocks"); }
+  }
+  bd_prev = c;
+}
+
 int main(int argc, char** argv) {
   if (argc < 2) Tok::fail("usage: drv_sparse file");
   std::ifstream in(argv[1]);
   Tok t(in);
   std::string w;
   for (ncase = 0; t.next(w); ncase++) {
+    if (w == "BD") { bd_case(t); continue; }
     if (w != "CASE") Tok::fail("CASE expected");
     int m = t.num(), n = t.num(), rank = t.num(), conn = t.num();
     std::vector<double> A(m * n); for (auto& v : A) v = t.dbl();
